@@ -87,7 +87,7 @@ def nontrivial(impl):
 
 def run(tier, seed, drv):
     return msuite.standard_run(PID, 'C11', TAGS, tier, seed, drv, [family, lambda r: gen.gen_scenario(r, PROFILE), close_race, nested],
-                               nontrivial=nontrivial, rule=RULE)
+                               nontrivial=nontrivial, rule=RULE, optimized=100 if tier == 'quick' else 1000)
 
 
 def replay(data, drv):
